@@ -517,11 +517,25 @@ fn random(_t: Tier) -> BoxedStrategy<Case> {
         prop_oneof![
             3 => proptest::sample::select(TEXTS).prop_map(|s| s.to_string()),
             2 => vec(proptest::sample::select(vec!["a", "\n", "\r\n", "b"]), 0..6).prop_map(|v| v.concat()),
+            1 => (1020usize..1040).prop_map(|n| "x\n".repeat(n)),
         ],
         vec(vec(call_strategy(), 1..4), 2..5),
         vec(0u8..4, 0..40),
     )
-        .prop_map(|(text, threads, schedule)| Case { scenario: Scenario { text, threads }, schedule: Some(schedule) })
+        .prop_map(|(text, mut threads, schedule)| {
+            if text.len() > 1000 {
+                // a lines() walk over a long text is thousands of scheduling points: use the
+                // other calls there, and ask for late lines too
+                for (k, c) in threads.iter_mut().flatten().enumerate() {
+                    match c {
+                        Call::Lines => *c = Call::LineCount,
+                        Call::GetLine(i) if *i < 5 && k % 2 == 0 => *c = Call::GetLine(*i * 256 + 3),
+                        _ => {}
+                    }
+                }
+            }
+            Case { scenario: Scenario { text, threads }, schedule: Some(schedule) }
+        })
         .boxed()
 }
 
@@ -533,7 +547,17 @@ fn run_stress(ctx: &mut Ctx) {
     }
     sourcemap::verif_hooks::set_yield_hook(None);
     let rounds = ctx.tier.pick(3_000u64, 300_000);
-    let texts = ["", "a", "a\nb", "a\r\nb\nc\rd\n", "\n\n\n", "line\n".repeat(50).as_str().to_string().leak()];
+    let texts = [
+        "",
+        "a",
+        "a\nb",
+        "a\r\nb\nc\rd\n",
+        "\n\n\n",
+        "line\n".repeat(50).as_str().to_string().leak(),
+        // long texts: indexing takes long enough for threads to meet inside it
+        "l\n".repeat(1500).as_str().to_string().leak(),
+        "some longer line of text\r\n".repeat(5000).as_str().to_string().leak(),
+    ];
     let mut evals = 0u64;
     let mut nontrivial = 0u64;
     for round in 0..rounds {
